@@ -277,6 +277,148 @@ def gen_section(body, consts):
             "new_table construct self ctx q header t2"]
 
 
+
+def gen_pmt_new_table(body):
+    c = T(tokenize(body))
+    c.expect("{", "if")
+    lit = c.take()
+    if lit[0] != "num" or c.take()[1] != "!=":
+        raise ParseError("table id test")
+    c.expect("header", ".", "table_id", "{")
+    while c.skip_warn():
+        pass
+    c.expect("return", ";", "}")
+    tid = int(lit[1].replace("_", ""), 0)
+    c.expect("let", "mut")
+    seen = c.take()[1]
+    c.expect("=")
+    if not re.fullmatch(r"(fixedbitset::)?FixedBitSet::with_capacity", c.take()[1]):
+        raise ParseError("bit set constructor")
+    c.skip_parens(); c.expect(";")
+    c.expect("for")
+    var = c.take()[1]
+    c.expect("in", "sect", ".", "streams", "(", ")", "{")
+    lines, n, filt = [], [0], None
+
+    def fresh():
+        n[0] += 1
+        return "t%d" % n[0]
+
+    def epid():
+        """`usize::from(x.elementary_pid())` / `x.elementary_pid()` -> (prelude, term)"""
+        if c.at("usize::from", "("):
+            c.i += 2
+            p, a = epid()
+            c.expect(")")
+            return p, a
+        if c.at(var, ".", "elementary_pid", "(", ")"):
+            c.i += 5
+            v = fresh()
+            return ["let %s ← Stmt.elementaryPid %s" % (v, var)], v
+        raise ParseError("unsupported PID expression at %r" % c.peek()[1])
+
+    while c.peek()[1] != "}":
+        if c.skip_warn():
+            continue
+        if c.at("let"):
+            c.take(); filt = c.take()[1]
+            c.expect("=", "ctx", ".", "construct", "(", "FilterRequest::ByStream", "{")
+            fields, pre = {}, []
+            while c.peek()[1] != "}":
+                f = c.take()[1]; c.expect(":")
+                if c.at("self", ".", "pid"):
+                    c.i += 3; fields[f] = "self.pid"
+                elif c.at(var, ".", "stream_type", "(", ")"):
+                    c.i += 5
+                    v = fresh(); pre.append("let %s ← Stmt.streamType %s" % (v, var)); fields[f] = v
+                elif c.at("sect"):
+                    c.take(); fields[f] = "sect"
+                elif c.at("&", var):
+                    c.i += 2; fields[f] = var
+                else:
+                    raise ParseError("unsupported ByStream field %s" % f)
+                c.maybe(",")
+            c.expect("}"); c.expect(")"); c.expect(";")
+            if set(fields) != {"program_pid", "stream_type", "pmt", "stream_info"} or fields["pmt"] != "sect" or fields["stream_info"] != var:
+                raise ParseError("ByStream fields %s" % fields)
+            lines += pre + ["let (%s, ctx) ← construct ctx (Stmt.RawReq.byStream %s %s sect %s)" % (filt, fields["program_pid"], fields["stream_type"], var)]
+            continue
+        if c.at("ctx", ".", "filter_changeset", "(", ")", ".", "insert", "("):
+            c.i += 8
+            p, a = epid(); c.expect(",")
+            if c.take()[1] != filt:
+                raise ParseError("inserted value is not the constructed filter")
+            c.expect(")"); c.expect(";")
+            lines += p + ["let q := q ++ [Change.insert %s %s]" % (a, filt)]
+            continue
+        if c.at(seen, ".", "insert", "("):
+            c.i += 4
+            p, a = epid(); c.expect(")"); c.expect(";")
+            lines += p + ["let %s := %s ++ [%s]" % (seen, seen, a)]
+            continue
+        if c.at("self", ".") and c.peek(3)[1] == "." and c.peek(4)[1] == "insert":
+            fld = c.peek(2)[1]
+            c.i += 6
+            p, a = epid(); c.expect(")"); c.expect(";")
+            lines += p + ["let self := { self with %s := self.%s ++ [%s] }" % (fld, fld, a)]
+            continue
+        raise ParseError("unsupported statement in the PMT loop at %r" % " ".join(x[1] for x in c.t[c.i:c.i + 6]))
+    c.expect("}")
+    c.expect("self", ".", "remove_outdated", "(", "ctx", ",", seen, ")", ";", "}")
+    out = ["if (%d != header.tableId) then do" % tid, "  pure (self, ctx, q)", "else do",
+           "  let %s : List Nat := []" % seen,
+           "  let it ← PmtGen.PmtSection.streams sect",
+           "  let (self, ctx, q, %s) ← forIter PmtGen.StreamInfoIter.next (it.buf.len + 1) it (self, ctx, q, %s)" % (seen, seen),
+           "    (fun %s st => do" % var,
+           "      let (self, ctx, q, %s) := st" % seen]
+    out += ["      " + l for l in lines]
+    out += ["      pure (self, ctx, q, %s))" % seen,
+            "  let (self, q) ← remove_outdated self q %s" % seen,
+            "  pure (self, ctx, q)"]
+    return out
+
+
+def gen_pmt_section(toks, consts):
+    c = T(toks)
+    c.expect("{", "let", "start", "=")
+    a = c.take()[1]; c.expect("+"); b = c.take()[1]; c.expect(";")
+    for x in (a, b):
+        if x not in consts:
+            raise ParseError("unknown constant %s" % x)
+    c.expect("let", "end", "=", "data", ".", "len", "(", ")", "-")
+    n = c.take()
+    if n[0] != "num":
+        raise ParseError("CRC size")
+    c.expect(";")
+    c.expect("match", "PmtSection::from_bytes", "(", "&", "data", "[", "start", "..", "end", "]", ")", "{")
+    arms = {}
+    for _ in range(2):
+        k = c.take()[1]
+        c.expect("(")
+        v = c.take()[1]
+        c.expect(")", "=>")
+        if k == "Ok":
+            c.expect("self", ".", "new_table", "(", "ctx", ",", "header", ",", "table_syntax_header", ",", "&", v, ")")
+            arms["Ok"] = v
+        elif k == "Err":
+            if not c.skip_warn():
+                raise ParseError("Err arm is not a warn!")
+            arms["Err"] = v
+        else:
+            raise ParseError("unsupported arm %s" % k)
+        c.maybe(",")
+    c.expect("}"); c.maybe(";"); c.expect("}")
+    if set(arms) != {"Ok", "Err"}:
+        raise ParseError("match arms")
+    return ["let start := (%d + %d)" % (consts[a], consts[b]),
+            "let t1 ← subR data.len %d" % int(n[1]),
+            "let t2 ← data.sub start t1",
+            "let t3 ← PmtGen.PmtSection.from_bytes t2",
+            "match t3 with",
+            "| some %s => new_table construct self ctx q header %s" % (arms["Ok"], arms["Ok"]),
+            "| none => pure (self, ctx, q)"]
+
+
 def main():
     try:
         defaults = json.load(open(DEFAULTS_PATH))
@@ -316,8 +458,8 @@ def main():
         # tolerate the trailing comma / line breaks of rustfmt in the call
         se_toks = tokenize(body_se)
         se_lines = gen_section_tokens(se_toks, consts)
-        out = ["import Ts.Gen.ItersGen", "import Ts.Refl.StmtVec", "import Ts.Model.App",
-               "/-! GENERATED by tools/gen_tables.py from PatProcessor::{default, section, new_table, remove_outdated} of /repo/src/demultiplex.rs — do not edit -/",
+        out = ["import Ts.Gen.ItersGen", "import Ts.Gen.PmtGen", "import Ts.Refl.StmtVec", "import Ts.Refl.StmtTbl", "import Ts.Model.App",
+               "/-! GENERATED by tools/gen_tables.py from PatProcessor::{default, section, new_table, remove_outdated} and PmtProcessor::{new, section, new_table, remove_outdated} of /repo/src/demultiplex.rs — do not edit -/",
                "set_option linter.unusedVariables false", "namespace Ts.Gen.TablesGen", "open Ts Ts.Demux Ts.StmtVec",
                "variable {C H : Type}",
                "/-- `struct PatProcessor` (the bit set as a membership list) -/",
@@ -333,7 +475,46 @@ def main():
         out += ["/-- `PatProcessor::section` -/",
                 "def «section» (construct : C → App.Req → R (H × C)) (self : PatProcessor) (ctx : C) (q : List (Change H)) (header : Psi.Header) (data : Stmt.Slice) : R (PatProcessor × C × List (Change H)) := do"]
         out += ["  " + l for l in se_lines]
-        out += ["end PatProcessor", "end Ts.Gen.TablesGen"]
+        out += ["end PatProcessor"]
+        # ---- PmtProcessor
+        m = re.search(r"struct PmtProcessor<Ctx: DemuxContext>\s*\{([^}]*)\}", src)
+        if not m:
+            raise ParseError("struct PmtProcessor not found")
+        fl = re.findall(r"(\w+)\s*:\s*([^,\n]+),", m.group(1))
+        want = [("pid", "packet::Pid"), ("program_number", "u16"), (fld, "fixedbitset::FixedBitSet"), ("phantom", "marker::PhantomData<Ctx>")]
+        if [(a, b.strip()) for a, b in fl] != want:
+            raise ParseError("PmtProcessor fields %s" % fl)
+        nm = re.search(r"pub fn new\(pid: packet::Pid, program_number: u16\) -> PmtProcessor<Ctx>\s*\{\s*PmtProcessor\s*\{\s*pid,\s*program_number,\s*%s:\s*fixedbitset::FixedBitSet::with_capacity\(" % fld, src)
+        if not nm:
+            raise ParseError("PmtProcessor::new")
+        blocks = []
+        for im in re.finditer(r"impl<Ctx: DemuxContext>\s+(?:psi::WholeSectionSyntaxPayloadParser for\s+)?PmtProcessor<Ctx>\s*\{", src):
+            blocks.append(src[im.end():match_brace(src, im.end() - 1)])
+        pblk = "\n".join(blocks)
+        p_ro2, b_ro2 = fn_body(pblk, "remove_outdated")
+        fld3, seen2, ro2 = gen_remove_outdated(p_ro2, b_ro2)
+        if fld3 != fld:
+            raise ParseError("PmtProcessor::remove_outdated uses another field")
+        _, b_nt2 = fn_body(pblk, "new_table")
+        nt2 = gen_pmt_new_table(b_nt2)
+        _, b_se2 = fn_body(pblk, "section")
+        se2 = gen_pmt_section(tokenize(b_se2), consts)
+        out[0:0] = []
+        out += ["/-- `struct PmtProcessor` -/",
+                "structure PmtProcessor where\n  pid : Nat\n  program_number : Nat\n  %s : List Nat" % fld,
+                "namespace PmtProcessor",
+                "/-- `PmtProcessor::new` -/",
+                "def new (pid program_number : Nat) : PmtProcessor := { pid := pid, program_number := program_number, %s := [] }" % fld,
+                "/-- `PmtProcessor::remove_outdated` -/",
+                "def remove_outdated (self : PmtProcessor) (q : List (Change H)) (%s : List Nat) : R (PmtProcessor × List (Change H)) := do" % seen2]
+        out += ["  " + l for l in ro2]
+        out += ["/-- `PmtProcessor::new_table` -/",
+                "def new_table (construct : C → Stmt.RawReq → R (H × C)) (self : PmtProcessor) (ctx : C) (q : List (Change H)) (header : Psi.Header) (sect : Stmt.Slice) : R (PmtProcessor × C × List (Change H)) := do"]
+        out += ["  " + l for l in nt2]
+        out += ["/-- `PmtProcessor::section` -/",
+                "def «section» (construct : C → Stmt.RawReq → R (H × C)) (self : PmtProcessor) (ctx : C) (q : List (Change H)) (header : Psi.Header) (data : Stmt.Slice) : R (PmtProcessor × C × List (Change H)) := do"]
+        out += ["  " + l for l in se2]
+        out += ["end PmtProcessor", "end Ts.Gen.TablesGen"]
         text = "\n".join(out) + "\n"
         if "--write-defaults" in sys.argv:
             defaults["tables"] = text
